@@ -82,3 +82,12 @@ package server
 //@   calls_havoc
 //@   modifies *
 //@   assert at "if err := datastore.AddToRepoLog(uuid, logdata); err != nil {": ok
+
+// BadRequest sends the error reply. Ghost errReplied records that the request has been answered with a
+// client error; handlers under contract assert that nothing is stored or deleted afterwards (C20: a
+// rejected request leaves the stored data as it was). TRUSTED (writes to the ResponseWriter and the log).
+//@ func BadRequest
+//@   trusted
+//@   ghost errReplied bool = arbitrary()
+//@   modifies ghost errReplied
+//@   ensures errReplied
